@@ -443,6 +443,7 @@ pub fn alphabet(full: bool) -> Vec<Act> {
     }
     v.push(Extract(Sel::First, 0));
     v.push(Extract(Sel::First, 4));
+    v.push(Extract(Sel::First, 3));
     v.push(Extract(Sel::Null, 0));
     if full {
         v.push(Extract(Sel::Last, 1));
